@@ -138,7 +138,21 @@ def run_history(h, props=None):
         LOG.clear()
         w = f'description #{n} {desc}'
         try:
-            model = MemDecoder(build(desc)).decode('mem')
+            if h[0] == 'decode_json':
+                # through the real JSON decoder and a real file: what open_file hands to decode() is the file's content
+                import json
+                import os
+                import tempfile
+                from ECAgent.Decode import JsonDecoder
+                fd, path = tempfile.mkstemp(prefix='verif-c18-', suffix='.json')
+                try:
+                    with os.fdopen(fd, 'w') as fh:
+                        json.dump(build(desc), fh)
+                    model = JsonDecoder().decode(path)
+                finally:
+                    os.unlink(path)
+            else:
+                model = MemDecoder(build(desc)).decode('mem')
         except Exception as ex:
             out.append(('C18', f'{w}: decode raised {type(ex).__name__}: {ex}'))
             continue
@@ -211,6 +225,9 @@ def histories(seed, budget, prop='C18'):
     other = dict(full, mod='b', systems=[dict(s, mod='b') for s in full['systems']],
                  groups=[dict(g, mod='b') for g in full['groups']])
     yield ('decode', [full, other, full])
+    yield ('decode_json', [full, other])
+    yield ('decode_json', [dict(full, groups=[dict(n=0, pre=True, post=True, mod='a'), dict(n=2, pre=True, post=False, mod='a'),
+                                              dict(n=0, pre=False, post=True, mod='b')])])
     yield ('decode', [other, full])
-    for _ in range(budget):
-        yield ('decode', [_desc(rng) for _ in range(rng.randint(1, 3))])
+    for k in range(budget):
+        yield ('decode_json' if k % 5 == 0 else 'decode', [_desc(rng) for _ in range(rng.randint(1, 3))])
